@@ -638,6 +638,12 @@ class MapPartitions(Blockwise):
     def _has_partition_info(self):
         return has_keyword(self.func, "partition_info")
 
+    def _select_partitions(self, partitions):
+        if self._has_partition_info:
+            # The function is told the number and division of its partition
+            return None
+        return super()._select_partitions(partitions)
+
     def _task(self, index: int):
         args = [self._blockwise_arg(op, index) for op in self.args]
         kwargs = (self.kwargs if self.kwargs is not None else {}).copy()
@@ -878,6 +884,10 @@ class MapOverlap(MapPartitions):
         if isinstance(after, str):
             return pd.to_timedelta(after)
         return after
+
+    def _select_partitions(self, partitions):
+        # Every partition also needs rows of the neighbouring partitions
+        return None
 
     def _lower(self):
         overlapped = CreateOverlappingPartitions(self.frame, self.before, self.after)
@@ -1159,6 +1169,12 @@ class Sample(Blockwise):
             self.operand("replace"),
         ]
         return (self.operation,) + tuple(args)
+
+    def _select_partitions(self, partitions):
+        # Every partition keeps its own random state
+        state_data = [self.state_data[i] for i in partitions]
+        frame = Partitions(self.frame, partitions)
+        return Sample(frame, state_data, self.frac, self.operand("replace"))
 
 
 class Query(Blockwise):
@@ -1565,6 +1581,10 @@ class EnforceRuntimeDivisions(Blockwise):
         ]
         return (self.operation,) + tuple(args)
 
+    def _select_partitions(self, partitions):
+        # Every partition is checked against its own divisions
+        return None
+
 
 class Abs(Elemwise):
     _projection_passthrough = True
@@ -1662,6 +1682,10 @@ class Split(Elemwise):
         kwargs = self._kwargs.copy()
         kwargs["random_state"] = self.random_state_data[index]
         return apply, self.operation, args, kwargs
+
+    def _select_partitions(self, partitions):
+        # The random state of a partition is derived from its number
+        return None
 
 
 def _random_split_take(df, i, ndim):
